@@ -982,8 +982,7 @@ func (ev *Eval) byteAt(s *Val, idx string) string {
 		return sel(s.T, idx)
 	case KSlice:
 		et := s.Ty.Underlying().(*types.Slice).Elem()
-		h := f.heap(ev.st, elemHeapPrefix(et), arraySort(2, "Int"))
-		return sel(sel(h, s.Fs[0].T), arith("+", s.Fs[1].T, idx))
+		return sel(f.elemRow(ev.st, elemHeapPrefix(et), arraySort(1, "Int"), s.Fs[0].T), arith("+", s.Fs[1].T, idx))
 	case KStr:
 		return "(gstr.at " + s.T + " " + idx + ")"
 	}
@@ -1130,13 +1129,11 @@ func (ev *Eval) recSpecCall(sp *SpecFn, args []*Val) *Val {
 			}
 			terms = append(terms, ts...)
 		}
-		for i, n := range info.heapNames {
-			terms = append(terms, f.heap(ev.st, n, info.heapSorts[i]))
-		}
+		terms = append(terms, ev.specHeapArgs(info, terms)...)
 		return &Val{K: info.resKind, T: "(" + info.fn0 + " " + strings.Join(terms, " ") + ")"}
 	}
 	if info == nil {
-		info = &recSpecInfo{fn: sym("spec." + sp.Name), resKind: KInt, dummy: "0", rs: "Int"}
+		info = &recSpecInfo{resKind: KInt, dummy: "0", rs: "Int"}
 		if sp.ResType != nil && exprString(sp.ResType) == "bool" {
 			info.resKind, info.dummy, info.rs = KBool, "false", "Bool"
 		}
@@ -1190,37 +1187,69 @@ func (ev *Eval) recSpecCall(sp *SpecFn, args []*Val) *Val {
 		}
 		nb := len(f.boundActive)
 		f.boundActive = append(f.boundActive, bnames...)
-		// phase A: discover the heaps the body reads
-		info.phaseA = true
-		ssA := &State{cells: map[*ssa.Alloc]*Val{}, heaps: map[string]string{}, wm: "0", pc: "true", sym: &symHeaps{}}
-		saveCmds := len(f.sc.cmds)
-		mk(ssA).eval(sp.Body)
-		_ = saveCmds
-		info.phaseA = false
-		info.heapNames = ssA.sym.names
-		info.heapSorts = ssA.sym.sorts
-		// phase B: the real definition
-		ssB := &State{cells: map[*ssa.Alloc]*Val{}, heaps: map[string]string{}, wm: "0", pc: "true", sym: &symHeaps{}}
+		noRow := map[string]bool{}
+		baseDecls := append([]string(nil), decls...)
 		var hb []string
-		for i, n := range info.heapNames {
-			bn := f.sc.fresh("hp")
-			ssB.heaps[n] = bn
-			hb = append(hb, bn)
-			decls = append(decls, "("+bn+" "+info.heapSorts[i]+")")
-			f.boundActive = append(f.boundActive, bn)
+		var body *Val
+		for attempt := 0; ; attempt++ {
+			decls = append([]string(nil), baseDecls...)
+			info.heapBound = nil
+			hb = nil
+			// phase A: discover the heaps (and per-object rows) the body reads
+			info.phaseA = true
+			ssA := &State{cells: map[*ssa.Alloc]*Val{}, heaps: map[string]string{}, wm: "0", pc: "true", sym: &symHeaps{noRow: noRow}}
+			mk(ssA).eval(sp.Body)
+			info.phaseA = false
+			info.heapNames = ssA.sym.names
+			info.heapSorts = ssA.sym.sorts
+			info.rows = ssA.sym.rows
+			info.paramBound = bnames
+			// phase B: the real definition (same bound names for heaps and rows)
+			ssB := &State{cells: map[*ssa.Alloc]*Val{}, heaps: map[string]string{}, wm: "0", pc: "true", sym: &symHeaps{noRow: noRow}}
+			for i, n := range info.heapNames {
+				bn := ssA.heaps[n]
+				ssB.heaps[n] = bn
+				info.heapBound = append(info.heapBound, bn)
+				hb = append(hb, bn)
+				decls = append(decls, "("+bn+" "+info.heapSorts[i]+")")
+			}
+			ssB.sym.rows = append([]symRow(nil), info.rows...)
+			var rowSorts []string
+			for _, r := range info.rows {
+				hb = append(hb, r.name)
+				decls = append(decls, "("+r.name+" "+r.sort+")")
+				rowSorts = append(rowSorts, r.sort)
+			}
+			allSorts := append(append(append([]string{}, info.paramSorts...), info.heapSorts...), rowSorts...)
+			suffix := ""
+			if attempt > 0 {
+				suffix = fmt.Sprintf("~%d", attempt)
+			}
+			info.fn = sym("spec." + sp.Name + suffix)
+			info.fn0 = sym("spec." + sp.Name + suffix + "$0")
+			f.sc.declareFun(info.fn, allSorts, info.rs)
+			f.sc.declareFun(info.fn0, allSorts, info.rs)
+			info.phaseB = true
+			body = mk(ssB).eval(sp.Body)
+			info.phaseB = false
+			if len(ssB.sym.names) == 0 && len(ssB.sym.rows) == len(info.rows) {
+				break
+			}
+			// a recursive call needs a row that is not one of ours: pass those heaps whole
+			for _, r := range ssB.sym.rows[len(info.rows):] {
+				noRow[r.heap] = true
+			}
+			for _, n := range ssB.sym.names {
+				_ = n
+			}
+			if attempt >= 3 {
+				ev.fail("spec %s: heap set does not stabilise", sp.Name)
+				break
+			}
 		}
-		f.sc.declareFun(info.fn, append(append([]string{}, info.paramSorts...), info.heapSorts...), info.rs)
-		info.fn0 = sym("spec." + sp.Name + "$0")
-		f.sc.declareFun(info.fn0, append(append([]string{}, info.paramSorts...), info.heapSorts...), info.rs)
-		info.phaseB = true
-		body := mk(ssB).eval(sp.Body)
-		info.phaseB = false
 		f.boundActive = f.boundActive[:nb]
 		if len(f.boundSorts) > nb {
 			f.boundSorts = f.boundSorts[:nb]
-		}
-		if len(ssB.sym.names) > 0 {
-			ev.fail("spec %s: heap set changed between phases", sp.Name)
 		}
 		app := "(" + info.fn + " " + strings.Join(append(append([]string{}, bnames...), hb...), " ") + ")"
 		f.sc.add("; definition of recursive spec " + sp.Name)
@@ -1242,14 +1271,41 @@ func (ev *Eval) recSpecCall(sp *SpecFn, args []*Val) *Val {
 		ev.fail("spec %s: argument shape mismatch (%d leaves, want %d)", sp.Name, len(terms), len(info.paramSorts))
 		return vInt("0", nil)
 	}
-	for i, n := range info.heapNames {
-		terms = append(terms, f.heap(ev.st, n, info.heapSorts[i]))
-	}
+	terms = append(terms, ev.specHeapArgs(info, terms)...)
 	t := "(" + info.fn + " " + strings.Join(terms, " ") + ")"
 	return &Val{K: info.resKind, T: t}
 }
 
+// specHeapArgs returns the heap and row arguments of an application of a
+// recursive spec function whose explicit argument terms are args.
+func (ev *Eval) specHeapArgs(info *recSpecInfo, args []string) []string {
+	f := ev.f
+	var out []string
+	var heaps []string
+	for i, n := range info.heapNames {
+		h := f.heap(ev.st, n, info.heapSorts[i])
+		heaps = append(heaps, h)
+		out = append(out, h)
+	}
+	for _, r := range info.rows {
+		ref := r.ref
+		for i, bn := range info.paramBound {
+			if i < len(args) {
+				ref = replaceToken(ref, bn, args[i])
+			}
+		}
+		for i, bn := range info.heapBound {
+			ref = replaceToken(ref, bn, heaps[i])
+		}
+		out = append(out, f.elemRow(ev.st, r.heap, r.sort, ref))
+	}
+	return out
+}
+
 type recSpecInfo struct {
+	rows       []symRow
+	paramBound []string
+	heapBound  []string
 	fn         string
 	paramSorts []string
 	heapNames  []string
@@ -1421,7 +1477,53 @@ func (ev *Eval) scopeHas(e ast.Expr) bool {
 			})
 			return false
 		case *ast.FuncLit:
-			return false // bound variables
+			// quantifier: its parameters are bound inside the body
+			bound := map[string]bool{}
+			for _, p := range x.Type.Params.List {
+				for _, n := range p.Names {
+					bound[n.Name] = true
+				}
+			}
+			ast.Inspect(x.Body, func(m ast.Node) bool {
+				switch y := m.(type) {
+				case *ast.SelectorExpr:
+					ast.Inspect(y.X, func(mm ast.Node) bool {
+						if id, isId := mm.(*ast.Ident); isId && !bound[id.Name] && !ev.identKnown(id.Name) && ev.findImport(id.Name) == nil {
+							ok = false
+						}
+						return true
+					})
+					return false
+				case *ast.FuncLit:
+					for _, p := range y.Type.Params.List {
+						for _, n := range p.Names {
+							bound[n.Name] = true
+						}
+					}
+				case *ast.CallExpr:
+					if id, isId := y.Fun.(*ast.Ident); isId {
+						_ = id
+						for _, a := range y.Args {
+							ast.Inspect(a, func(mm ast.Node) bool {
+								if fl, isFl := mm.(*ast.FuncLit); isFl {
+									for _, p := range fl.Type.Params.List {
+										for _, n := range p.Names {
+											bound[n.Name] = true
+										}
+									}
+								}
+								return true
+							})
+						}
+					}
+				case *ast.Ident:
+					if !bound[y.Name] && !ev.identKnown(y.Name) && !isContractBuiltin(y.Name) {
+						ok = false
+					}
+				}
+				return true
+			})
+			return false
 		case *ast.CallExpr:
 			for _, a := range x.Args {
 				if !ev.scopeHas(a) {
@@ -1430,7 +1532,7 @@ func (ev *Eval) scopeHas(e ast.Expr) bool {
 			}
 			return false
 		case *ast.Ident:
-			if !ev.identKnown(x.Name) {
+			if !ev.identKnown(x.Name) && !isContractBuiltin(x.Name) {
 				ok = false
 			}
 		}
@@ -1451,4 +1553,12 @@ func (ev *Eval) identKnown(name string) bool {
 		return true
 	}
 	return types.Universe.Lookup(name) != nil
+}
+
+func isContractBuiltin(name string) bool {
+	switch name {
+	case "forall", "exists", "implies", "old", "pre", "len", "cap", "min", "max", "abs", "ite", "fresh", "isnil", "be16", "be32", "ref", "off", "has", "seen", "nseen", "is", "pow2", "typeis", "int", "bool", "string":
+		return true
+	}
+	return false
 }
